@@ -102,7 +102,7 @@ PROPERTIES = {
         "expected_probes": ["shared_cache_phase", "shared_dataset_phase", "concurrent_dataset_init_phase", "ro_guard"],
         "tiers": {
             "quick": [B("tsan-small-a", "tsan", "small-a", 1500, 45), B("plain-small-a", "plain", "small-a", 3000, 25), B("plain-small-b", "plain", "small-b", 1000, 10),
-                      B("tsan-shipped", "tsan", "shipped", 16, 45, workers=8, gate=2)],
+                      B("tsan-shipped", "tsan", "shipped", 8, 30, workers=8, gate=2)],
             "thorough": [B("tsan-small-a", "tsan", "small-a", 40000, 420), B("tsan-small-b", "tsan", "small-b", 15000, 180), B("plain-small-a", "plain", "small-a", 150000, 300),
                          B("plain-small-b", "plain", "small-b", 50000, 120), B("tsan-shipped", "tsan", "shipped", 300, 420, workers=8, gate=4), B("plain-shipped", "plain", "shipped", 300, 240, workers=8, gate=4), B("contract-audit", "assert", "small-a", 3000, 40)],
         },
